@@ -394,3 +394,5 @@ def crash_sig(case, ex, where, tb):
 
 def run_case(case, res):
     {"uniform": run_uniform, "dimwise": run_dimwise, "dimwise_boundary": run_dimwise_boundary, "combi": run_combi}[case["gen"]](case, res)
+
+RULE += (" " + 'lambda = 1e9 in a few cases; single-precision sample arrays on small refinement-tree grids.')
